@@ -38,6 +38,7 @@ def run(ctx):
     # never SUCCEEDED/PENDING and never a hang (executor theorems C06X_*)
     from harness import comp_executor
     comp_executor.run_fault(ctx, "C06")
+    comp_executor.run_refresh_fault(ctx, "C06")
     # ... and in sequential workflows (steps incl. at-most-once retries, waits, callbacks, child contexts)
     from harness import comp_engine
     comp_engine.run_fault(ctx, "C06")
